@@ -2,6 +2,11 @@
    Every build runs the program of Transaction.create / Ledger.get_spendable_utxos as a sequence of
    atomic steps (one per await point):
 
+     PreLock   async with ledger._utxo_reservation_lock      (repaired: the pre-chosen inputs are reserved under the
+     Pre       await ledger.reserve_outputs(pre-chosen inputs)  lock; [lock_pre] = false is the code before that repair,
+     PreUnlock leaving the `async with`                      where this reservation ran outside the lock).
+               The pre-chosen wallet outputs belong to the build's inputs from Pre on.  If they already cover the
+               cost the build never enters the lock again and goes on to signing / Finish
      Lock      async with self._utxo_reservation_lock       (blocks while somebody holds it)
      Read      txos = await self.get_effective_amount_estimators(...)   (unreserved, unspent rows)
      Select    spendables = selector.select(txos, strategy)
@@ -23,7 +28,7 @@ Import ListNotations.
 
 Inductive status := Released | Broadcast | Failed.
 Inductive phase :=
-  PLock | PRead | PSelect | PReserve | PUnlock | PAbort | PFinish | PDone (s : status).
+  PPreLock | PPre | PPreUnlock | PLock | PRead | PSelect | PReserve | PUnlock | PAbort | PFinish | PDone (s : status).
 
 Record build := mkB {
   ph : phase;
@@ -39,7 +44,7 @@ Record state := mkS {
   bs : nat -> build
 }.
 
-Definition init_build : build := mkB PLock 0 [] [] [].
+Definition init_build : build := mkB PPreLock 0 [] [] [].
 Definition init (w : wallet) : state := mkS w None (fun _ => init_build).
 
 Definition upd (f : nat -> build) (b : nat) (x : build) : nat -> build :=
@@ -50,20 +55,39 @@ Definition spend (ids : list N) (w : wallet) : wallet :=
   filter (fun e => negb (mem_id (uid (fst e)) ids)) w.
 
 Definition crit (p : phase) : bool :=
-  match p with PRead | PSelect | PReserve | PUnlock => true | _ => false end.
+  match p with PPre | PPreUnlock | PRead | PSelect | PReserve | PUnlock => true | _ => false end.
 
 Section Builds.
   Variable use_lock : bool.                               (* false: the program without its Lock/Unlock steps *)
+  Variable lock_pre : bool.                               (* true: the pre-chosen inputs are reserved under the lock (repaired) *)
   Variable n : nat.                                       (* number of builds *)
   Variable choose : nat -> nat -> list utxo -> list utxo. (* build, round, rows read -> selection *)
   Variable more : nat -> nat -> list utxo -> bool.        (* build, round, inputs so far -> one more round *)
   Variable finish : nat -> bool.                          (* build -> true: broadcast, false: abandon *)
+  Variable pre : nat -> list utxo.                        (* build -> its pre-chosen inputs that are rows of the wallet *)
+  Variable start : nat -> bool.                           (* build -> the pre-chosen inputs do not cover the cost *)
   Variable can_sign : nat -> list utxo -> bool.           (* build, its inputs -> tx.sign succeeds (true for sign=False) *)
 
   Definition step (st : state) (b : nat) : state :=
     if n <=? b then st else
     let B := bs st b in
     match ph B with
+    | PPreLock =>
+      if use_lock && lock_pre then
+        match lock st with
+        | None => mkS (wal st) (Some b) (upd (bs st) b (mkB PPre (rnd B) (snap B) (sel B) (held B)))
+        | Some _ => st
+        end
+      else mkS (wal st) (lock st) (upd (bs st) b (mkB PPre (rnd B) (snap B) (sel B) (held B)))
+    | PPre =>
+      mkS (reserve (pre b) (wal st)) (lock st)
+          (upd (bs st) b (mkB PPreUnlock (rnd B) (snap B) (sel B) (held B ++ pre b)))
+    | PPreUnlock =>
+      mkS (wal st) (if use_lock && lock_pre then None else lock st)
+          (upd (bs st) b
+               (if start b then mkB PLock (rnd B) [] [] (held B)
+                else if can_sign b (held B) then mkB PFinish (rnd B) [] [] (held B)
+                else mkB PAbort (rnd B) [] [] (held B)))
     | PLock =>
       if use_lock then
         match lock st with
